@@ -8,14 +8,6 @@ CONSTANTS
   LocoOps <- LocoOpsQ
   Targets <- One
   MaxOps = 2
-INVARIANT ComponentConsistent
-INVARIANT LocoConsistent
-INVARIANT Traction
-INVARIANT ConsistMass
-INVARIANT ConsistForce
-INVARIANT TrainStatic
 INVARIANT Atomic
-INVARIANT OptionSemantics
-INVARIANT Frame
 
 CHECK_DEADLOCK FALSE
